@@ -808,39 +808,42 @@ func emptyActiveValue(t *testing.T, r *evid.Run, dir string) {
 	srv.SetWho(addr, httpdrv.Who{Login: "ok@verif", Node: "ok", Rules: all})
 	cl := setec.Client{Server: "http://setec.verif", DoHTTP: srv.ClientDo(addr)}
 	vals := [][]byte{[]byte("hello"), {}, []byte("again"), nil}
-	for _, v := range vals {
-		d.Put(su, "switch", v)
-	}
 	ctx := context.Background()
-	for _, active := range []uint32{2, 1, 4, 3, 2} {
-		if err := d.Activate(su, "switch", api.SecretVersion(active)); err != nil {
-			t.Fatal(err)
+	// (under names as programs happen to write them: read from a file with its final newline, indented)
+	for _, name := range []string{"switch", " switch-lead", "switch-trail\n", "\tboth sides "} {
+		for _, v := range vals {
+			d.Put(su, name, v)
 		}
-		for _, v := range []uint32{0, 1, 2, 3, 4, 5, 0xFFFFFFFF} {
-			for _, front := range []string{"db", "http"} {
-				var sv *api.SecretValue
-				var err error
-				if front == "db" {
-					sv, err = d.GetConditional(su, "switch", api.SecretVersion(v))
-				} else {
-					sv, err = cl.GetIfChanged(ctx, "switch", api.SecretVersion(v))
-				}
-				r.Eval(1)
-				r.Count("conditional_gets_of_an_empty_value", 1)
-				c := realdb.Classify(err)
-				var ok bool
-				if v == active {
-					ok = c == refmodel.NotChanged
-				} else {
-					ok = c == refmodel.OK && sv != nil && uint32(sv.Version) == active && string(sv.Value) == string(vals[active-1])
-				}
-				if !ok {
-					key := front + "-conditional-get-wrong"
-					if c == refmodel.NotChanged {
-						key = front + "-not-modified-although-changed"
+		for _, active := range []uint32{2, 1, 4, 3, 2} {
+			if err := d.Activate(su, name, api.SecretVersion(active)); err != nil {
+				t.Fatal(err)
+			}
+			for _, v := range []uint32{0, 1, 2, 3, 4, 5, 0xFFFFFFFF} {
+				for _, front := range []string{"db", "http"} {
+					var sv *api.SecretValue
+					var err error
+					if front == "db" {
+						sv, err = d.GetConditional(su, name, api.SecretVersion(v))
+					} else {
+						sv, err = cl.GetIfChanged(ctx, name, api.SecretVersion(v))
 					}
-					r.Violation(key, -1, fmt.Sprintf("versions 1..4 hold %q; version %d is active; %s get-if-changed V=%d answered %s %v (err %v)", vals, active, front, v, c, sv, err), nil)
-					return
+					r.Eval(1)
+					r.Count("conditional_gets_of_an_empty_value", 1)
+					c := realdb.Classify(err)
+					var ok bool
+					if v == active {
+						ok = c == refmodel.NotChanged
+					} else {
+						ok = c == refmodel.OK && sv != nil && uint32(sv.Version) == active && string(sv.Value) == string(vals[active-1])
+					}
+					if !ok {
+						key := front + "-conditional-get-wrong"
+						if c == refmodel.NotChanged {
+							key = front + "-not-modified-although-changed"
+						}
+						r.Violation(key, -1, fmt.Sprintf("secret %q: versions 1..4 hold %q; version %d is active; %s get-if-changed V=%d answered %s %v (err %v)", name, vals, active, front, v, c, sv, err), nil)
+						return
+					}
 				}
 			}
 		}
